@@ -381,7 +381,7 @@ Proof.
 Qed.
 
 (* ---- against HeapOps.run_op_v for the current source: both repairs present ---- *)
-Definition v_now : variants := mkVariants true true.
+Definition v_now : variants := mkVariants true true true.
 
 Lemma relab_fuel r : relab r <> HFuel -> r <> HFuel.
 Proof. intros H E. apply H. rewrite E. reflexivity. Qed.
